@@ -141,7 +141,7 @@ class _FormattingHandler:
 
 
 def scenario(res, seq, use_vpc, segspec, pooling, failing, label="", own_hasher=False, opts=()):
-    """opts: 'debug-log' (the application runs with DEBUG logging for the library), 'tls' (a TLS context is configured),
+    """opts: 'in-except' (reconfigure_nodes() is called from inside an except block), 'debug-log' (the application runs with DEBUG logging for the library), 'tls' (a TLS context is configured),
     'hand-added' (a server outside the advertised list was added through the public add_server() before a reconfiguration)"""
     import logging
     logging.raiseExceptions = False     # the library's own logger.exception() call has a formatting slip; keep stderr quiet
@@ -262,7 +262,15 @@ def _scenario(res, seq, use_vpc, segspec, pooling, failing, label, own_hasher, o
             w.net.seg = driver.make_seg(segspec)
             w.net.begin_call("reconf%d" % step)
             try:
-                client.reconfigure_nodes()
+                if "in-except" in opts:
+                    # the usual call site: the application reconfigures while it handles the error that made it suspect a change
+                    try:
+                        raise LookupError("the caller's own exception")
+                    except LookupError:
+                        client.reconfigure_nodes()
+                    res.count("reconfigurations_from_inside_an_except_block")
+                else:
+                    client.reconfigure_nodes()
             except Exception as e:
                 v("reconfigure-raises:%s" % type(e).__name__, "reconfigure_nodes() to %r raised %r" % (adv, e))
                 return viol, case
@@ -405,7 +413,7 @@ def shard(tier, seed, idx, n):
             pooling = (work // 5) % 2 == 1
             failing = ((work // 10) % 3 == 0 and len(seq) > 1) and (True if (work // 30) % 3 == 0 else 1 + (work // 30) % 3)
             own = (work // 7) % 4 == 0
-            opts = tuple(o for o, on in (("debug-log", (work // 3) % 3 == 0), ("tls", (work // 11) % 5 == 0),
+            opts = tuple(o for o, on in (("debug-log", (work // 3) % 3 == 0), ("tls", (work // 11) % 5 == 0), ("in-except", (work // 4) % 3 == 1),
                                          ("hand-added", len(seq) > 1 and (work // 2) % 4 == 1
                                           and len(set(seq[0]) | set(seq[1])) < 6 and max(seq[0] + seq[1]) < 6)) if on)
             viol, case = scenario(res, seq, use_vpc, segspec, pooling, failing, own_hasher=own, opts=opts)
